@@ -1337,8 +1337,20 @@ where
                     None => Box::new(std::iter::empty()),
                 }
             }
+            TrieStorage::CompressedSparse { sparse_nodes, .. } => {
+                // The children map of the node, in symbol order like the other storages
+                match sparse_nodes.get(&state) {
+                    Some(node) => {
+                        let mut children: Vec<(u8, StateId)> =
+                            node.children.iter().map(|(&symbol, &child)| (symbol, child)).collect();
+                        children.sort_unstable();
+                        Box::new(children.into_iter())
+                    }
+                    None => Box::new(std::iter::empty()),
+                }
+            }
             _ => {
-                // TODO: Implement for other storage types (CriticalBit, Louds, CompressedSparse)
+                // TODO: Implement for other storage types (CriticalBit, Louds)
                 Box::new(std::iter::empty())
             }
         }
